@@ -14,6 +14,7 @@ package goatlang
 //@   def t == TypeInt8 || t == TypeUint8 || t == TypeInt32 || t == TypeUint32
 //@
 //@ spec valid(v Value) bool
+//@   opaque
 //@   def (v.t == TypeInt8 ==> same(v.num, float64(int8(v.num)))) && (v.t == TypeUint8 ==> same(v.num, float64(uint8(v.num)))) && (v.t == TypeInt32 ==> same(v.num, float64(int32(v.num)))) && (v.t == TypeUint32 ==> same(v.num, float64(uint32(v.num)))) && (v.t == untypedInt ==> same(v.num, float64(int64(v.num))) && small(int64(v.num)))
 //@
 //@ spec small(x int64) bool
@@ -491,12 +492,20 @@ package goatlang
 //@ ghost slotsOf(c []instruction) int
 //@
 //@ func (*VM).exec
+//@   property C07 C09
 //@   requires v.frame.BaseN >= 0 && slotsOf(v.frame.Codes) >= 0 && len(v.stack) >= v.frame.BaseN + slotsOf(v.frame.Codes)
+//@   modifies *
+//@   ensures#frameobj v.frame.Codes == old(v.frame.Codes) && v.frame.BaseN == old(v.frame.BaseN) && v.globals == old(v.globals)
+//@   ensures#depth len(v.stack) >= v.frame.BaseN + slotsOf(v.frame.Codes)
+//@   ensures#callerframes forall j int :: 0 <= j && j < v.frame.BaseN ==> v.stack[j] == old(v.stack[j])
+//@   ensures#backtrace len(v.backtrace) == old(len(v.backtrace))
 //@
 //@ func (*VM).exec loop 0
 //@   invariant v.frame.Codes == codes && v.frame.BaseN == baseN && l == len(codes)
 //@   invariant 0 <= v.frame.N
 //@   invariant baseN >= 0 && slotsOf(codes) >= 0 && len(v.stack) >= baseN + slotsOf(codes)
+//@   invariant v.globals == old(v.globals) && len(v.backtrace) == old(len(v.backtrace))
+//@   invariant forall j int :: 0 <= j && j < baseN ==> v.stack[j] == old(v.stack[j])
 //@
 
 //@ spec ins(v *VM) instruction
@@ -524,7 +533,7 @@ package goatlang
 //@   property C07
 //@   requires sepStack(v)
 //@   ensures#callerframes forall j int :: 0 <= j && j < baseN ==> v.stack[j] == old(v.stack[j])
-//@   ensures#frameobj v.frame.Codes == old(v.frame.Codes) && v.frame.BaseN == old(v.frame.BaseN) && v.globals == old(v.globals)
+//@   ensures#frameobj v.frame.Codes == old(v.frame.Codes) && v.frame.BaseN == old(v.frame.BaseN) && v.globals == old(v.globals) && len(v.backtrace) == old(len(v.backtrace))
 //@
 //@ func (*VM).exec case codeAdd
 //@   property C07 C04 C02
@@ -893,6 +902,7 @@ package goatlang
 //@
 //@ func (*VM).exec case codeGlobalZero
 //@   property C07 C17
+//@   reveal valid
 //@   requires globalOK(v, ins(v).A)
 //@   nopanic
 //@   ensures#delta len(v.stack) == old(len(v.stack)) && keeps(v, len(v.stack))
@@ -904,3 +914,85 @@ package goatlang
 //@ func (*VM).exec case codeReturn
 //@   property C07 C06
 //@   nopanic
+
+// ---------------------------------------------------------------------------------------------
+// The callee protocol (C09, C07): every function value stored in funcT.Value is entered with
+// its Args arguments on top of the operand stack and returns with those cells replaced by its
+// results; no cell below the arguments changes; frame, globals pointer and backtrace depth are
+// restored. It may panic and may modify any container / global.
+// ---------------------------------------------------------------------------------------------
+//@ functype funcT.Value(self *funcT, v *VM)
+//@   requires len(v.stack) >= self.Args && self.Args >= 0
+//@   modifies *
+//@   ensures len(v.stack) >= old(len(v.stack)) - old(self.Args)
+//@   ensures forall j int :: 0 <= j && j < old(len(v.stack)) - old(self.Args) ==> v.stack[j] == old(v.stack[j])
+//@   ensures v.frame == old(v.frame) && v.globals == old(v.globals) && len(v.backtrace) == old(len(v.backtrace))
+//@
+//@ func callReady
+//@   property C09 C07
+//@   requires v != nil && ft != nil && len(v.stack) >= xArgs && xArgs >= 0 && xRets >= 0
+//@   modifies *
+//@   ensures#arity xArgs == old(ft.Args)
+//@   ensures#delta len(v.stack) == old(len(v.stack)) - xArgs + xRets
+//@   ensures#frame forall j int :: 0 <= j && j < old(len(v.stack)) - xArgs ==> v.stack[j] == old(v.stack[j])
+//@   ensures#restore v.frame == old(v.frame) && v.globals == old(v.globals) && len(v.backtrace) == old(len(v.backtrace))
+//@
+
+// ---- slices (C11) ----
+//@ func sliceType
+//@   inline
+//@ func mapType
+//@   inline
+//@ func structType
+//@   inline
+//@ func (Type).pair
+//@   inline
+//@ func (Type).isSafeStr
+//@   inline
+//@ func newSlice
+//@   property C11 C09
+//@   nopanic
+//@   allocates sliceT
+//@   ensures result.t == sliceType(valueType) && is(result.value, *sliceT) && isfresh(as(result.value, *sliceT)) && same(result.num, 0.0)
+//@   ensures as(result.value, *sliceT).valueType == valueType && as(result.value, *sliceT).data == data
+//@
+//@ func NewSlice
+//@   property C11 C09 C04
+//@   requires forall j int :: 0 <= j && j < len(data) ==> valid(data[j])
+//@   modifies elems(data)
+//@   allocates sliceT
+//@   nopanic
+//@   ensures#obj result.t == sliceType(valueType) && is(result.value, *sliceT) && isfresh(as(result.value, *sliceT))
+//@   ensures#fields as(result.value, *sliceT).valueType == valueType && as(result.value, *sliceT).data == data
+//@   ensures#typed forall j int :: 0 <= j && j < len(data) ==> data[j] == old(data[j]).assign(valueType)
+//@ func NewSlice loop 0
+//@   invariant forall j int :: 0 <= j && j < rangeidx ==> data[j] == old(data[j]).assign(valueType)
+//@   invariant forall j int :: rangeidx <= j && j < len(data) ==> data[j] == old(data[j])
+//@   invariant forall j int :: 0 <= j && j < len(data) ==> valid(old(data[j]))
+
+//@ spec validStack(v *VM) bool
+//@   def forall j int :: 0 <= j && j < len(v.stack) ==> valid(v.stack[j])
+//@
+//@ spec wfFunc(f *funcT) bool
+//@   def f != nil && f.Args >= 0 && (f.Variadic ==> f.Args >= 1)
+//@
+//@ func newFunc
+//@   property C09 C19
+//@   nopanic
+//@   allocates funcT
+//@   ensures result.t == TypeFunc && is(result.value, *funcT) && isfresh(as(result.value, *funcT)) && wfFunc(as(result.value, *funcT))
+//@   ensures as(result.value, *funcT).Args == ite(old(argc) < 0, -old(argc), old(argc)) && as(result.value, *funcT).Rets == rets && as(result.value, *funcT).Variadic == (old(argc) < 0) && as(result.value, *funcT).Value == f
+//@   ensures as(result.value, *funcT).VariadicType == TypeNil
+//@
+//@ func call
+//@   property C09 C07
+//@   requires v != nil && wfFunc(ft) && len(v.stack) >= xArgs && xArgs >= 0 && xRets >= 0 && validStack(v)
+//@   modifies *
+//@   ensures#delta len(v.stack) == old(len(v.stack)) - old(xArgs) + xRets
+//@   ensures#frame forall j int :: 0 <= j && j < old(len(v.stack)) - old(xArgs) ==> v.stack[j] == old(v.stack[j])
+//@   ensures#restore v.frame == old(v.frame) && v.globals == old(v.globals) && len(v.backtrace) == old(len(v.backtrace))
+//@   ensures#arity !old(ft.Variadic) ==> old(xArgs) == old(ft.Args)
+//@   callsite#fixed callReady: forall j int :: 0 <= j && j < old(len(v.stack)) - (old(xArgs) - ft.Args + 1) ==> v.stack[j] == old(v.stack[j])
+//@   callsite#packedlen callReady: ft.Variadic ==> len(v.stack) == old(len(v.stack)) - (old(xArgs) - ft.Args + 1) + 1 && arg_xArgs == ft.Args
+//@   callsite#packedtype callReady: ft.Variadic ==> is(top(v, 0).value, *sliceT) && as(top(v, 0).value, *sliceT).valueType == ft.VariadicType.value() && top(v, 0).t == sliceType(ft.VariadicType.value())
+//@   callsite#packedorder callReady: ft.Variadic ==> len(as(top(v, 0).value, *sliceT).data) == old(xArgs) - ft.Args + 1 && (forall j int :: 0 <= j && j < old(xArgs) - ft.Args + 1 ==> as(top(v, 0).value, *sliceT).data[j] == old(v.stack[len(v.stack) - (xArgs - ft.Args + 1) + j]).assign(ft.VariadicType.value()))
